@@ -53,10 +53,10 @@ var opaqueTypes = map[string]bool{
 	"unique.Handle[net/netip.addrDetail]": true,
 	"sync.Mutex":                          true, "sync.RWMutex": true, "sync.Once": true,
 	"sync/atomic.Int32": true, "sync/atomic.Int64": true, "sync/atomic.Uint64": true, "sync/atomic.Bool": true,
-	"log/slog.Attr": true, "log/slog.Value": true, "log/slog.Record": true, "log/slog.Level": false,
+	"log/slog.Attr": true, "log/slog.Value": true, "log/slog.Record": false, "log/slog.Level": false,
 	"bufio.Scanner": true, "encoding/json.Decoder": true, "bytes.Buffer": true, "net/url.Userinfo": true,
 	"reflect.Value": true, "sync.Pool": true, "sync.WaitGroup": true, "sync.Map": true,
-	"encoding/json.Encoder": true, "log/slog.TextHandler": true, "log/slog.HandlerOptions": true,
+	"encoding/json.Encoder": true, "log/slog.TextHandler": true, "log/slog.HandlerOptions": false,
 	"net/http.Request": false, "net/http.Header": false, "context.Context": false,
 	"time.Timer": true, "time.Ticker": true, "log/slog.Logger": true,
 }
